@@ -337,10 +337,16 @@ func judge(cs Case, m modeling.Mesh, lat latticeFacts) verdict {
 	}
 
 	// outward: positive signed volume
+	// (summed about a vertex of the mesh, not about the origin: for a closed surface the value does not
+	// depend on the reference point, the rounding error does — at coordinates of 2e5 the origin-based
+	// sum of a unit-sized solid has no correct digit left)
 	vol := 0.
-	for _, t := range s.Tri {
-		a, b, c := s.P[t[0]], s.P[t[1]], s.P[t[2]]
-		vol += a.Dot(b.Cross(c)) / 6
+	if len(s.Tri) > 0 {
+		ref := s.P[s.Tri[0][0]]
+		for _, t := range s.Tri {
+			a, b, c := s.P[t[0]].Sub(ref), s.P[t[1]].Sub(ref), s.P[t[2]].Sub(ref)
+			vol += a.Dot(b.Cross(c)) / 6
+		}
 	}
 	vd.volume = vol
 	if !(vol > 0) && pr.closed() {
